@@ -8,6 +8,9 @@ use cosmwasm_std::{coin, Addr, Coin, MessageInfo, Response};
 use serde::{Deserialize, Serialize};
 use std::collections::BTreeSet;
 
+#[path = "c06_sites.rs"]
+mod sites;
+
 #[derive(Clone, Debug, Serialize, Deserialize, PartialEq, Eq, PartialOrd, Ord)]
 pub enum Case {
     FairBurn { fee: u128, dev: bool },
@@ -314,21 +317,40 @@ fn kind(c: &Case) -> &'static str {
     }
 }
 
+/// Every caller of the sg1 fee functions in /repo (grep -rn over contracts/ and packages/),
+/// and how the call-site part drives it.
+const SITE_NOTES: &[&str] = &[
+    "call sites (grep -rn 'fair_burn|checked_fair_burn|distribute_mint_fees|ibc_denom_fair_burn|transfer_funds_to_launchpad_dao' contracts packages, sg1 itself excluded): \
+     factories base/vending/open-edition/token-merge execute_create_minter: checked_fair_burn | transfer_funds_to_launchpad_dao chosen by creation_fee.denom [Site::Create]; \
+     vending-minter, -featured, -wl-flex, -wl-flex-featured, -merkle-wl, -merkle-wl-featured, token-merge-minter execute_shuffle: checked_fair_burn(shuffle_fee.amount, None) [Site::Shuffle]; \
+     the same six vending minters _execute_mint: distribute_mint_fees(fee, featured?, None); open-edition-minter, -wl-flex, -merkle-wl _execute_mint: distribute_mint_fees(fee, false, Some(dev_fee_address)); token-merge-minter _execute_mint (airdrop mints only): distribute_mint_fees(fee, false, None) [Site::Mint public / whitelist / airdrop]; \
+     base-minter execute_mint_sender: checked_fair_burn(network_fee, None) [Site::BaseMint]; \
+     whitelist, whitelist-flex, tiered-whitelist, tiered-whitelist-flex instantiate and execute_increase_member_limit: checked_fair_burn(fee, None) [Site::WlCreate, Site::WlIncrease]; \
+     whitelist-merkletree, tiered-whitelist-merkletree instantiate: checked_fair_burn(CREATION_FEE, None) [Site::WlMerkleCreate]; \
+     sg721-updatable execute_enable_updatable: checked_fair_burn(ENABLE_UPDATABLE_FEE, None) [Site::EnableUpdatable, on a collection migrated from sg721-base]; \
+     sg-eth-airdrop instantiate: fair_burn(env.contract.address, INSTANTIATION_FEE, None) [Site::AirdropInit]",
+    "not driven as fee sites: ibc_denom_fair_burn has no caller in contracts/ or packages/ (direct calls only); sg721-updatable UpdateTokenMetadata is nonpayable in this tree (no fee is charged, so there is nothing to dispose of); no call site passes a developer to fair_burn / checked_fair_burn (always None), the open-edition minters are the only ones that pass one to distribute_mint_fees",
+    "the decoded MsgFundFairburnPool sender is read from the stargate keeper: an accepted message was signed by the emitting contract (the keeper refuses anything else), a refused one names the sender in the refusal",
+];
+
 pub fn run(a: &Args) {
     let out = OutDir::new(&a.out);
     let mut rep = Report { property: "C06".into(), tier: a.tier.clone(), seed: a.seed, ..Default::default() };
-    let cases: Vec<Case> = if let Some(p) = &a.replay {
-        #[derive(Deserialize)]
-        struct ReplayFile {
-            case: Case,
-        }
+    #[derive(Deserialize)]
+    struct ReplayFile {
+        case: Option<Case>,
+        site_case: Option<sites::SiteCase>,
+    }
+    let (cases, site_cases): (Vec<Case>, Vec<sites::SiteCase>) = if let Some(p) = &a.replay {
         let txt = std::fs::read_to_string(p).expect("replay file");
         let rf: ReplayFile = serde_json::from_str(&txt).expect("replay json");
-        vec![rf.case]
+        (rf.case.into_iter().collect(), rf.site_case.into_iter().collect())
     } else {
-        gen_cases(a)
+        let mut srng = Rng::new(a.seed ^ 0x5173_C06);
+        (gen_cases(a), sites::gen_cases(a.thorough(), &mut srng))
     };
     let mut coq_cases = Vec::with_capacity(cases.len());
+    let mut coq_site_cases = Vec::with_capacity(site_cases.len());
     let mut distinct = BTreeSet::new();
     let mut nviol = 0;
     for (i, c) in cases.iter().enumerate() {
@@ -361,9 +383,78 @@ pub fn run(a: &Args) {
         }
         coq_cases.push(o.coq);
     }
-    rep.distinct_nontrivial = distinct.len() as u64;
-    rep.rule = "sg1 functions called directly on: every fee in a dense initial range, all 2^k,2^k±1,10^k,10^k±1, random u128 of random bit length, x {dev present/absent} x {featured} x {native, IBC}; payment entry points on fee-1/fee/fee+1/0/random payments with valid and malformed coin lists. Non-trivial = distinct input whose output carries a non-zero amount.".into();
-    out.write_cases("C06", "From LP Require Import Num Pay Sg1 C06Corr.", "c06_case", "c06_check", &coq_cases, 6, &mut rep);
+    // ---- call sites: the real contracts on the simulated chain
+    let mut site_distinct = BTreeSet::new();
+    let mut seen_keys: BTreeSet<String> = BTreeSet::new();
+    let mut site_sampled = false;
+    for c in site_cases.iter() {
+        rep.evaluations += 1;
+        let k = sites::kind(c);
+        let mut found: Vec<(String, String)> = vec![];
+        let observed: String;
+        match sites::run_case(c) {
+            Ok(o) => {
+                rep.bump(&format!("{}:{}", k, if o.ok { "ok" } else { "err" }));
+                if o.ok && sites::expectation(c).fee > 0 {
+                    site_distinct.insert(c.clone());
+                }
+                found = sites::monitor(c, &o);
+                observed = serde_json::to_string(&o).unwrap();
+                if !site_sampled && (o.ok || a.replay.is_some()) && matches!(c.site, sites::Site::Mint { .. }) {
+                    site_sampled = true;
+                    rep.samples.truncate(2);
+                    rep.samples.push(serde_json::json!({"case": format!("{:?}", c), "impl_output": format!("ok={} contract={} deltas: pool {} burned {} launchpad {} liquidity {} dev {:?}",
+                        o.ok, o.contract, o.delta(crate::chain::FAIRBURN_POOL, NATIVE), o.delta("#burned", NATIVE),
+                        o.delta(LAUNCHPAD_DAO, NATIVE), o.delta(LIQUIDITY_DAO, NATIVE), o.dev.as_ref().map(|d| o.delta(d, NATIVE)))}));
+                }
+                coq_site_cases.push(sites::coq_case(c, &o));
+            }
+            Err(e) => {
+                // the world of the case could not be staged: on the unchanged tree this never
+                // happens; on a changed tree the site (or the path to it) no longer accepts
+                // what it must accept
+                rep.bump(&format!("{}:unreachable", k));
+                found.push((format!("C06:{}:unreachable", k), format!("the world of the case cannot be built any more: {}", e)));
+                observed = serde_json::to_string(&e).unwrap();
+            }
+        }
+        for (key, what) in found {
+            nviol += 1;
+            // one replay per distinct shape of failure (the key), the first case that showed it
+            if seen_keys.len() < 60 && seen_keys.insert(key.clone()) {
+                let body = format!(
+                    "{{\n \"property\": \"C06\",\n \"site_case\": {},\n \"observed\": {},\n \"key\": {},\n \"violation\": {}\n}}\n",
+                    serde_json::to_string(c).unwrap(),
+                    observed,
+                    serde_json::to_string(&key).unwrap(),
+                    serde_json::to_string(&what).unwrap()
+                );
+                let path = out.write_replay(&format!("C06-{}.json", nviol), &body);
+                rep.violations.push(Violation { key, what: format!("{:?}: {}", c, what), replay: path });
+            }
+        }
+    }
+    rep.distinct_nontrivial = (distinct.len() + site_distinct.len()) as u64;
+    rep.rule = "sg1 functions called directly on: every fee in a dense initial range, all 2^k,2^k±1,10^k,10^k±1, random u128 of random bit length, x {dev present/absent} x {featured} x {native, IBC}; payment entry points on fee-1/fee/fee+1/0/random payments with valid and malformed coin lists. Non-trivial = distinct input whose output carries a non-zero amount. Call sites: every caller of those functions in the contracts, run on the simulated chain (factories x fee denom x mint denom, 11 minters x public/whitelist/airdrop mint x denom, shuffle, whitelist creation / IncreaseMemberLimit, Merkle whitelists, EnableUpdatable, sg-eth-airdrop instantiate) with fees 1,2,3,odd,even,large and payments fee-1/fee/fee+1/none/wrong denom/two coins; non-trivial = distinct accepted call that charged a non-zero fee.".into();
+    rep.notes.extend(SITE_NOTES.iter().map(|s| s.split_whitespace().collect::<Vec<_>>().join(" ")));
+    if a.replay.is_none() {
+        rep.notes.push(sites::probe_shuffle_fee_in_ibc_denom());
+    }
+    rep.notes.push(format!("{} direct calls, {} call-site cases ({} accepted with a non-zero fee)", cases.len(), site_cases.len(), site_distinct.len()));
+    // the site cases are spread evenly over the direct ones, so that every shard of the
+    // model run gets its share of them
+    let every = (coq_cases.len() / coq_site_cases.len().max(1)).max(1);
+    let mut all = Vec::with_capacity(coq_cases.len() + coq_site_cases.len());
+    let mut sit = coq_site_cases.into_iter();
+    for (i, c) in coq_cases.into_iter().enumerate() {
+        if i % every == 0 {
+            all.extend(sit.next());
+        }
+        all.push(c);
+    }
+    all.extend(sit);
+    let coq_cases = all;
+    out.write_cases("C06", "From LP Require Import Num Pay Sg1 Bank FeeSites C06Corr.", "c06_case", "c06_check", &coq_cases, 6, &mut rep);
     out.finish(&rep);
     println!("C06 harness: {} cases, {} monitor violations", rep.evaluations, nviol);
 }
